@@ -163,11 +163,11 @@ def _wellformed(m, a, b, nh, nb, s1, s2, bl, dn=0):
 def malformed(mask: int, kind: int, which: int) -> bool:
     """
     pre: 0 <= mask < 64
-    pre: 0 <= kind <= 8
+    pre: 0 <= kind <= 10
     pre: 0 <= which <= 2
     post: _
     """
-    m, kd, wh = _conc(mask, 0, 63), _conc(kind, 0, 8), _conc(which, 0, 2)
+    m, kd, wh = _conc(mask, 0, 63), _conc(kind, 0, 10), _conc(which, 0, 2)
     with NoTracing():
         es = _edges(m, [1, 2, 3])
         nodes = {{x for (u, v, _w) in es for x in (u, v)}}
@@ -191,6 +191,14 @@ def malformed(mask: int, kind: int, which: int) -> bool:
             lines[1] = str(len(nodes)) + " vertices\\n"            # trailing text on the vertex-count line
         elif kd == 7:
             del lines[1]                                           # vertex-count line missing: an edge line is found instead
+        elif kd == 9:
+            lines.insert(1, "#S " + v + " " + u + "\\n")             # constraint names the edge backwards (both nodes exist, the edge does not)
+            if any((a, b_) == (v, u) for (a, b_, _w) in es):
+                return True                                         # the reversed pair happens to be an edge as well: not malformed
+        elif kd == 10:
+            lines.insert(1, "#S " + u + " " + u + "\\n")             # constraint repeats a node
+            if any((a, b_) == (u, u) for (a, b_, _w) in es):
+                return True
         else:
             lines[1] = "4.0\\n"                                    # vertex count that is not an integer literal
         try:
@@ -262,7 +270,7 @@ def run_task(task):
             "wellformed_edges": "symbolic edge-subset bitmask (8 candidate edges incl. self loop and 2-cycle, multi-character node names) and a weight in {0, 2}",
             "wellformed_layout": "symbolic header count, blank-line count, two independent '#S' selectors (duplicates and sequences whose concatenation collides), number of blocks (1-2, read through read_graphs), on two edge sets",
             "wellformed_count": "symbolic edge subset (16 masks), vertex-count line = number of nodes + d with d symbolic in -1..2 (isolated vertices declared / stale count), 1-2 blocks: stored counts must describe the returned graph",
-            "malformed": "symbolic edge subset, corruption kind 0..8 (token counts, non-numeric weight / count, count with trailing text, missing count line, absent constraint edge), corrupted line index", "symbolic_edge_line": "one fully symbolic edge line of <= 5 characters"}[task["fn"]]
+            "malformed": "symbolic edge subset, corruption kind 0..10 (token counts, non-numeric weight / count, count with trailing text, missing count line, constraint naming an unknown node / a reversed edge / a repeated node), corrupted line index", "symbolic_edge_line": "one fully symbolic edge line of <= 5 characters"}[task["fn"]]
     res["samples"].append({"harness": task["fn"], "symbolic": what, "verdict": v["verdict"], "cpu_s": round(cpu, 1)})
     if v["verdict"] == "confirmed":
         res["discharged"] += 1
